@@ -206,15 +206,20 @@ func (d *dataRecord) GetBuffer() []byte {
 	if len(d.buffer) == d.len || d.isDecoding {
 		return d.buffer
 	}
-	d.buffer = make([]byte, d.len)
+	buffer := make([]byte, d.len)
 	index := 0
 	for _, element := range d.orderedElementList {
-		err := encodeInfoElementValueToBuff(element, d.buffer, index)
+		err := encodeInfoElementValueToBuff(element, buffer, index)
 		if err != nil {
+			// The record cannot be encoded faithfully. Return no buffer, rather than
+			// a buffer in which the field is silently zeroed, so that the caller
+			// (e.g., the sanity check of the exporting process) can detect it.
 			klog.Error(err)
+			return nil
 		}
 		index += element.GetLength()
 	}
+	d.buffer = buffer
 	return d.buffer
 }
 
